@@ -87,6 +87,8 @@ round2('C16-m3', 'C16', 'm1', [('c16_m1_demo_test.go', 'jsonpointer')], GT + "-r
 round2('C16-m4', 'C16', 'm2', [('c16_m2_demo_test.go', 'jsonpointer')], GT + "-run TestC16M2 ./jsonpointer/")
 round2('C08-m3', 'C08', 'm1', [('c08_m1_demo_test.go', 'ogenregex')], GT + "-run TestC08M1NamedBackreference ./ogenregex/")
 round2('C08-m4', 'C08', 'm2', [('c08_m2_demo_test.go', 'ogenregex')], GT + "-run TestC08M2SurrogatePairEscape ./ogenregex/")
+round2('C20-m3', 'C20', 'm1', [('absent_target_test.go', 'cmd/ogen')], GT + "-run 'TestFailedGenerationDoesNotCreateTarget|TestSuccessfulGenerationCreatesTarget' ./cmd/ogen")
+round2('C20-m4', 'C20', 'm2', [('recursive_struct_test.go', 'cmd/ogen')], GT + "-run TestInfiniteRecursion ./cmd/ogen")
 # round2-entries
 TABLE.update(json.load(open('/verif/tools/seeded_extra.json')) if os.path.exists('/verif/tools/seeded_extra.json') else {})
 
